@@ -374,6 +374,15 @@ func c03Has(m map[string]int, max int, keys ...string) bool {
 	return true
 }
 
+// c03BindOp: the stream's feedback list either as one of the two fixed lists (`nack=0|1`) or as any list over the
+// shared alphabet, in any order, with near-duplicates of the plain `nack` entry before and after it (`fbl=<code>`).
+func c03BindOp(r *Rng, ssrc, nackOK int) string {
+	if r.Chance(1, 3) {
+		return fmt.Sprintf("bind ssrc=%d nack=%d", ssrc, nackOK)
+	}
+	return fmt.Sprintf("bind ssrc=%d fbl=%d", ssrc, genFeedbackCode(r, nackOK == 1))
+}
+
 func c03GenNackgen(r *Rng, tier string, idx int) Case {
 	if idx%37 == 36 {
 		switch r.Intn(3) {
@@ -425,7 +434,7 @@ func c03GenNackgen(r *Rng, tier string, idx int) Case {
 			nackOK = 0
 		}
 		if i == 0 || r.Chance(2, 3) {
-			ops = append(ops, fmt.Sprintf("bind ssrc=%d nack=%d", s, nackOK))
+			ops = append(ops, c03BindOp(r, s, nackOK))
 		}
 	}
 	n := r.Range(20, 240)
@@ -440,7 +449,7 @@ func c03GenNackgen(r *Rng, tier string, idx int) Case {
 		case p < 3:
 			ops = append(ops, fmt.Sprintf("unbind ssrc=%d", s))
 		case p < 8:
-			ops = append(ops, fmt.Sprintf("bind ssrc=%d nack=%d", s, r.Pick(1, 1, 1, 0)))
+			ops = append(ops, c03BindOp(r, s, r.Pick(1, 1, 1, 0)))
 		case p < 10:
 			ops = append(ops, fmt.Sprintf("rtperr ssrc=%d", s))
 		case p < 12:
@@ -480,7 +489,7 @@ func c03GenWriteFail(r *Rng) Case {
 		}
 		ssrcs = append(ssrcs, s)
 		streams[s] = newC03Stream(r, size, []string{"bernoulli", "burst", "mixed", "bernoulli"}[r.Intn(4)])
-		ops = append(ops, fmt.Sprintf("bind ssrc=%d nack=1", s))
+		ops = append(ops, c03BindOp(r, s, 1))
 	}
 	nt := r.Range(6, 30)
 	for t := 0; t < nt; t++ {
@@ -630,6 +639,21 @@ func c03RunNackgen(t *testing.T, ops []string, o *Out) {
 					info.RTCPFeedback = []interceptor.RTCPFeedback{{Type: "nack", Parameter: "pli"}, {Type: "transport-cc"}}
 				}
 				readers[info.SSRC] = icpt.BindRemoteStream(info, source)
+			case name == "bind" && c03Has(m, 1<<32-1, "ssrc", "fbl"):
+				// the stream's RTCPFeedback list by its code (streaminfo_test.go): any order, near-duplicates
+				fbl, okc := feedbackOfCode(m["fbl"])
+				if !okc {
+					o.P("bad-op")
+					continue
+				}
+				info := &interceptor.StreamInfo{SSRC: uint32(m["ssrc"]), RTCPFeedback: fbl}
+				readers[info.SSRC] = icpt.BindRemoteStream(info, source)
+				for i, fb := range info.RTCPFeedback { // the StreamInfo is the caller's
+					if want, _ := feedbackOfCode(m["fbl"]); len(want) != len(info.RTCPFeedback) || want[i] != fb {
+						o.P("streaminfo-modified")
+						break
+					}
+				}
 			case name == "unbind" && c03Has(m, 1<<32-1, "ssrc"):
 				icpt.UnbindRemoteStream(&interceptor.StreamInfo{SSRC: uint32(m["ssrc"])})
 			case (name == "rtp" && c03Has(m, 1<<32-1, "ssrc", "seq") && m["seq"] <= 65535) ||
